@@ -53,7 +53,9 @@ def model_of(d):
         name = str(getattr(b, 'name', 'diagram'))
         if data is not None and box_kind(b) == "box":
             name += "#" + " ".join(repr(data).split())[:80]      # equal name, other data: another generator
-        boxes.append((repr(b), name, atoms_of(b.dom), atoms_of(b.cod),
+        bd, bc = atoms_of(b.dom), atoms_of(b.cod)
+        # identity of a box: its repr AND its type (some classes print the name only)
+        boxes.append(("%s|%r|%r" % (repr(b), bd, bc), name, bd, bc,
                       box_kind(b), bool(getattr(b, "is_dagger", False))))
     return (atoms_of(d.dom), tuple(boxes), tuple(d.offsets))
 
